@@ -278,11 +278,16 @@ class EllipseFitter:
         # See if eps == 0 (round isophote) was crossed.
         # If so, fix it but still proceed
         if sample.geometry.eps < 0.0:
-            sample.geometry.eps = min(-sample.geometry.eps, MAX_EPS)
-            if sample.geometry.pa < PI2:
-                sample.geometry.pa += PI2
+            if sample.geometry.fix[2]:
+                # the position angle is fixed, so the axes cannot be
+                # swapped: make the ellipse (nearly) round instead
+                sample.geometry.eps = MIN_EPS
             else:
-                sample.geometry.pa -= PI2
+                sample.geometry.eps = min(-sample.geometry.eps, MAX_EPS)
+                if sample.geometry.pa < PI2:
+                    sample.geometry.pa += PI2
+                else:
+                    sample.geometry.pa -= PI2
 
         # If ellipse is an exact circle, computations will diverge.
         # Make it slightly flat, but still proceed
